@@ -278,20 +278,30 @@ def checkDoubleDeclare (fixedNames : List String) (s : Step1) (name : String) : 
     else if fixedNames.contains name then [⟨.RedeclaredBuiltinWire, [name]⟩] else []
   { s with errors := s.errors ++ errs, declared := setInsert s.declared name }
 
+def step1Const (fixedNames : List String) (s : Step1) (d : ConstDecl) : Step1 :=
+  let s := checkDoubleDeclare fixedNames s d.name
+  { s with wireTypes := s.wireTypes.insert d.name .constant, constantsRaw := s.constantsRaw.insert d.name d.value }
+
+def step1Wire (fixedNames : List String) (s : Step1) (d : WireDecl) : Step1 :=
+  let s := checkDoubleDeclare fixedNames s d.name
+  { s with wires := s.wires.insert d.name d.width, wireTypes := s.wireTypes.insert d.name .normal,
+           needed := setInsert s.needed d.name }
+
+/-- one assigned name of `a = b = expr` -/
+def step1Name (fixedOut : List String) (value : Ex) (s : Step1) (name : String) : Step1 :=
+  let errs : List Diag :=
+    if s.assigned.contains name then [⟨.DoubleAssignedWire, [name]⟩]
+    else if fixedOut.contains name then [⟨.DoubleAssignedFixedOutWire, [name]⟩] else []
+  { s with errors := s.errors ++ errs, assignments := s.assignments.insert name value,
+           assigned := setInsert s.assigned name }
+
+def step1Assign (fixedOut : List String) (s : Step1) (a : Assignment) : Step1 :=
+  a.names.foldl (step1Name fixedOut a.value) s
+
 def step1Stmt (fixedNames fixedOut : List String) (s : Step1) : Stmt → Step1
-  | .consts ds => ds.foldl (fun s d =>
-      let s := checkDoubleDeclare fixedNames s d.name
-      { s with wireTypes := s.wireTypes.insert d.name .constant, constantsRaw := s.constantsRaw.insert d.name d.value }) s
-  | .wires ds => ds.foldl (fun s d =>
-      let s := checkDoubleDeclare fixedNames s d.name
-      { s with wires := s.wires.insert d.name d.width, wireTypes := s.wireTypes.insert d.name .normal,
-               needed := setInsert s.needed d.name }) s
-  | .assigns as => as.foldl (fun s a => a.names.foldl (fun s name =>
-      let errs : List Diag :=
-        if s.assigned.contains name then [⟨.DoubleAssignedWire, [name]⟩]
-        else if fixedOut.contains name then [⟨.DoubleAssignedFixedOutWire, [name]⟩] else []
-      { s with errors := s.errors ++ errs, assignments := s.assignments.insert name a.value,
-               assigned := setInsert s.assigned name }) s) s
+  | .consts ds => ds.foldl (step1Const fixedNames) s
+  | .wires ds => ds.foldl (step1Wire fixedNames) s
+  | .assigns as => as.foldl (step1Assign fixedOut) s
   | .bank b => { s with banksRaw := s.banksRaw ++ [b] }
 
 def step1Init (fixed : List FixedFunction) : Step1 :=
